@@ -47,12 +47,20 @@ inline device_address LOCAL()  { return bluetoe::link_layer::public_device_addre
 inline device_address REMOTE() { return bluetoe::link_layer::random_device_address( { 0xa6, 0xa5, 0xa4, 0xa3, 0xa2, 0xa1 } ); }
 inline device_address OTHER()  { return bluetoe::link_layer::random_device_address( { 0x66, 0x65, 0x64, 0x63, 0x62, 0xc1 } ); }
 
-// candidates for the legacy temporary key: 0 just works, 1 displayed passkey, 2 typed passkey, 3 OOB data
+// candidates for the legacy temporary key: 0 just works, 1 displayed passkey, 2 typed passkey, 3 OOB data,
+// and passkeys that are *not* the user's: 4 typed passkey mod 65536, 5 typed passkey with the upper half changed, 6 displayed passkey mod 65536
+// ( both passkeys are >= 65536 and have bits in both halves )
+static const int TK_CANDIDATES = 7, TK_FIRST_WRONG_PASSKEY = 4;
 inline u128 tk_of( int idx )
 {
-    switch ( idx ) { case 1: return passkey128( PASSKEY_DISPLAY ); case 2: return passkey128( PASSKEY_KEYBOARD ); case 3: return OOBDATA(); default: return u128{}; }
+    switch ( idx )
+    {
+    case 1: return passkey128( PASSKEY_DISPLAY ); case 2: return passkey128( PASSKEY_KEYBOARD ); case 3: return OOBDATA();
+    case 4: return passkey128( PASSKEY_KEYBOARD & 0xffff ); case 5: return passkey128( PASSKEY_KEYBOARD ^ 0x50000 ); case 6: return passkey128( PASSKEY_DISPLAY & 0xffff );
+    default: return u128{};
+    }
 }
-static const char* const tk_name[] = { "tk0", "tk-displayed-passkey", "tk-typed-passkey", "tk-oob" };
+static const char* const tk_name[] = { "tk0", "tk-displayed-passkey", "tk-typed-passkey", "tk-oob", "tk-typed-passkey-mod-65536", "tk-typed-passkey-upper-half-changed", "tk-displayed-passkey-mod-65536" };
 
 // ------------------------------------------------------------------------------------------------------------------
 // tagging fake toolbox
@@ -130,27 +138,41 @@ struct io_script
 };
 inline io_script g_io;
 
-// single slot bonding data base
+// bonding data base: one entry that exists before the connection ( configuration events ) and one for the bond made on this
+// connection; a new bond with the same identification ( peer, EDIV, Rand ) replaces the old entry
 struct bond_db
 {
-    std::uint8_t  has; std::uint8_t key[ 16 ]; std::uint16_t ediv; std::uint64_t rand; std::uint8_t mac[ 7 ];
-    std::uint8_t  created, stored;   // during the current step
+    struct entry
+    {
+        std::uint8_t has; std::uint8_t key[ 16 ]; std::uint16_t ediv; std::uint64_t rand; std::uint8_t mac[ 7 ];
+        void put( const u128& k, std::uint16_t e, std::uint64_t r, const device_address& a )
+        {
+            has = 1; std::copy( k.begin(), k.end(), key ); ediv = e; rand = r; std::copy( a.begin(), a.end(), mac ); mac[ 6 ] = a.is_random() ? 1 : 0;
+        }
+        bool same_mac( const device_address& a ) const { return std::equal( a.begin(), a.end(), mac ) && mac[ 6 ] == ( a.is_random() ? 1 : 0 ); }
+        bool is( std::uint16_t e, std::uint64_t r, const device_address& a ) const { return has && e == ediv && r == rand && same_mac( a ); }
+    };
+    entry earlier, made, last;        // last: what store_bond() was called with during the current step
+    std::uint8_t  created, stored;    // during the current step
 
     void reset() { std::memset( this, 0, sizeof *this ); }
-    void step_begin() { created = stored = 0; }
-    void put( const u128& k, std::uint16_t e, std::uint64_t r, const device_address& a )
-    {
-        has = 1; std::copy( k.begin(), k.end(), key ); ediv = e; rand = r; std::copy( a.begin(), a.end(), mac ); mac[ 6 ] = a.is_random() ? 1 : 0;
-    }
-    bool same_mac( const device_address& a ) const { return std::equal( a.begin(), a.end(), mac ) && mac[ 6 ] == ( a.is_random() ? 1 : 0 ); }
+    void step_begin() { created = stored = 0; std::memset( &last, 0, sizeof last ); }
+    bool any() const { return earlier.has || made.has; }
+    const entry& pick() const { return made.has ? made : earlier; }
 
     template < class Radio >
     bluetoe::details::longterm_key_t create_new_bond( Radio& radio, const device_address& ) { created = 1; return radio.create_long_term_key(); }
     template < class Connection >
-    void store_bond( const bluetoe::details::longterm_key_t& k, const Connection& c ) { stored = 1; put( k.longterm_key, k.ediv, k.rand, c.remote_address() ); }
+    void store_bond( const bluetoe::details::longterm_key_t& k, const Connection& c )
+    {
+        stored = 1;
+        last.put( k.longterm_key, k.ediv, k.rand, c.remote_address() );
+        if ( earlier.is( k.ediv, k.rand, c.remote_address() ) ) earlier = last; else made = last;
+    }
     std::pair< bool, u128 > find_key( std::uint16_t e, std::uint64_t r, const device_address& a ) const
     {
-        if ( has && e == ediv && r == rand && same_mac( a ) ) { u128 k; std::copy( key, key + 16, k.begin() ); return { true, k }; }
+        for ( const entry* x : { &made, &earlier } )
+            if ( x->is( e, r, a ) ) { u128 k; std::copy( x->key, x->key + 16, k.begin() ); return { true, k }; }
         return { false, u128{} };
     }
     template < class Connection > void restore_cccds( Connection& ) {}
@@ -199,10 +221,11 @@ enum Kind : std::uint8_t { K_PDU, K_POLL, K_USER_YES, K_USER_NO, K_ENC_ON_PAIRIN
 // variants of the PDUs
 enum { RQ_LEG_NOIO, RQ_LEG_KBDISP, RQ_LEG_OOB, RQ_LESC_NOIO, RQ_LESC_KBDISP, RQ_LESC_KBONLY, RQ_LESC_OOB,
        RQ_SHORT, RQ_LONG, RQ_IO5, RQ_OOB2, RQ_KEY6, RQ_KEY17, RQ_IKD_F0, RQ_RKD_F0 };
-enum { CF_TK0, CF_TK_DISP, CF_TK_KB, CF_TK_OOB, CF_BAD, CF_SHORT, CF_LONG };
+enum { CF_TK0, CF_TK_DISP, CF_TK_KB, CF_TK_OOB, CF_TK_KB_MOD, CF_TK_KB_UPPER, CF_TK_DISP_MOD, CF_TK_LAST = CF_TK_DISP_MOD,      // 0..6 = index of the temporary key
+       CF_BAD, CF_BAD_FIRST, CF_BAD_MIDDLE, CF_BAD_LAST, CF_BAD_ALL_BUT_LAST, CF_SHORT, CF_LONG };       // near misses are derived from the value for tk0
 enum { RN_A, RN_B, RN_SHORT, RN_LONG };
 enum { PK_VALID, PK_INVALID, PK_SHORT, PK_LONG };
-enum { DH_OK, DH_BAD, DH_SHORT, DH_LONG };
+enum { DH_OK, DH_BAD, DH_BAD_FIRST, DH_BAD_MIDDLE, DH_BAD_ALL_BUT_LAST, DH_SHORT, DH_LONG };   // DH_BAD: last octet wrong
 
 struct Ev { Kind kind; std::uint8_t op; std::uint8_t var; std::string name; };
 
@@ -213,7 +236,7 @@ enum : std::uint8_t { ST_NO_KEY, ST_UNAUTH, ST_AUTH };
 static const char* const st_name[] = { "no_key", "unauthenticated_key", "authenticated_key" };
 enum : std::uint8_t { U_NONE, U_WAITING, U_YES, U_NO };
 enum : std::uint8_t { EA_NONE, EA_OK, EA_BAD, EA_AMBIGUOUS };
-enum : std::uint8_t { HOW_NONE, HOW_LEG_TK0, HOW_LEG_PASSKEY, HOW_LEG_OOB, HOW_LESC_NO_USER, HOW_LESC_NUMCMP };
+enum : std::uint8_t { HOW_NONE, HOW_LEG_TK0, HOW_LEG_PASSKEY, HOW_LEG_OOB, HOW_LEG_WRONG_PASSKEY, HOW_LESC_NO_USER, HOW_LESC_NUMCMP };
 
 struct Ref
 {
@@ -279,7 +302,11 @@ struct World
             if ( C::out == 1 ) pdu( 3, CF_TK_DISP, "pairing_confirm correct-for-displayed-passkey" );
             if ( C::in == 2 )  pdu( 3, CF_TK_KB, "pairing_confirm correct-for-typed-passkey" );
             if ( C::oob )      pdu( 3, CF_TK_OOB, "pairing_confirm correct-for-oob-data" );
+            if ( C::in == 2 )  { pdu( 3, CF_TK_KB_MOD, "pairing_confirm correct-for-typed-passkey-mod-65536" ); pdu( 3, CF_TK_KB_UPPER, "pairing_confirm correct-for-typed-passkey-with-upper-half-changed" ); }
+            if ( C::out == 1 ) pdu( 3, CF_TK_DISP_MOD, "pairing_confirm correct-for-displayed-passkey-mod-65536" );
             pdu( 3, CF_BAD, "pairing_confirm wrong-value" );
+            pdu( 3, CF_BAD_FIRST, "pairing_confirm tk0-value-with-first-octet-wrong" );   pdu( 3, CF_BAD_MIDDLE, "pairing_confirm tk0-value-with-middle-octet-wrong" );
+            pdu( 3, CF_BAD_LAST, "pairing_confirm tk0-value-with-last-octet-wrong" );     pdu( 3, CF_BAD_ALL_BUT_LAST, "pairing_confirm tk0-value-with-all-but-last-octet-wrong" );
             pdu( 3, CF_SHORT, "pairing_confirm length-1" );  pdu( 3, CF_LONG, "pairing_confirm length+1" );
         }
         // Pairing Random
@@ -291,7 +318,9 @@ struct World
         if ( lesc )
         {
             pdu( 0x0c, PK_INVALID, "pairing_public_key not-on-curve" ); pdu( 0x0c, PK_SHORT, "pairing_public_key length-1" ); pdu( 0x0c, PK_LONG, "pairing_public_key length+1" );
-            pdu( 0x0d, DH_BAD, "pairing_dhkey_check wrong-value" );     pdu( 0x0d, DH_SHORT, "pairing_dhkey_check length-1" ); pdu( 0x0d, DH_LONG, "pairing_dhkey_check length+1" );
+            pdu( 0x0d, DH_BAD, "pairing_dhkey_check last-octet-wrong" ); pdu( 0x0d, DH_BAD_FIRST, "pairing_dhkey_check first-octet-wrong" );
+            pdu( 0x0d, DH_BAD_MIDDLE, "pairing_dhkey_check middle-octet-wrong" ); pdu( 0x0d, DH_BAD_ALL_BUT_LAST, "pairing_dhkey_check all-but-last-octet-wrong" );
+            pdu( 0x0d, DH_SHORT, "pairing_dhkey_check length-1" ); pdu( 0x0d, DH_LONG, "pairing_dhkey_check length+1" );
         }
         // everything else
         static const struct { std::uint8_t op; const char* n; } rest[] = {
@@ -412,7 +441,12 @@ struct World
             return 7; }
         case 3: {
             u128 v = pat( 0xE0 );
-            if ( e.var <= CF_TK_OOB || e.var >= CF_SHORT ) v = toolbox::c1( tk_of( e.var <= CF_TK_OOB ? e.var : 0 ), MRAND_A(), ref_p1(), ref_p2() );
+            if ( e.var != CF_BAD ) v = toolbox::c1( tk_of( e.var <= CF_TK_LAST ? e.var : 0 ), MRAND_A(), ref_p1(), ref_p2() );
+            switch ( e.var )
+            {
+            case CF_BAD_FIRST: v[ 0 ] ^= 0x80; break;  case CF_BAD_MIDDLE: v[ 7 ] ^= 0x01; break;  case CF_BAD_LAST: v[ 15 ] ^= 0x01; break;
+            case CF_BAD_ALL_BUT_LAST: for ( int i = 0; i != 15; ++i ) v[ i ] = std::uint8_t( ~v[ i ] ); break;
+            }
             std::copy( v.begin(), v.end(), b + 1 );
             return e.var == CF_SHORT ? 16 : e.var == CF_LONG ? 18 : 17; }
         case 4: {
@@ -424,7 +458,12 @@ struct World
             if ( e.var == PK_INVALID ) b[ 1 ] = 0xEE;
             return e.var == PK_SHORT ? 64 : e.var == PK_LONG ? 66 : 65; }
         case 0x0d: {
-            u128 v = ref_ea(); if ( e.var == DH_BAD ) v[ 15 ] ^= 1;
+            u128 v = ref_ea();
+            switch ( e.var )
+            {
+            case DH_BAD: v[ 15 ] ^= 0x01; break;  case DH_BAD_FIRST: v[ 0 ] ^= 0x80; break;  case DH_BAD_MIDDLE: v[ 8 ] ^= 0x10; break;
+            case DH_BAD_ALL_BUT_LAST: for ( int i = 0; i != 15; ++i ) v[ i ] = std::uint8_t( ~v[ i ] ); break;
+            }
             std::copy( v.begin(), v.end(), b + 1 );
             return e.var == DH_SHORT ? 16 : e.var == DH_LONG ? 18 : 17; }
         case 0x02: return 7;
@@ -599,9 +638,9 @@ struct World
             return true; }
         case K_ENC_ON_PAIRING_KEY: case K_ENC_ON_BOND_KEY: {
             if ( cd->is_encrypted() ) return false;
-            if ( e.kind == K_ENC_ON_BOND_KEY && !g_db.has ) return false;
-            const std::uint16_t ediv = e.kind == K_ENC_ON_BOND_KEY ? g_db.ediv : 0;
-            const std::uint64_t rand = e.kind == K_ENC_ON_BOND_KEY ? g_db.rand : 0;
+            if ( e.kind == K_ENC_ON_BOND_KEY && !g_db.any() ) return false;
+            const std::uint16_t ediv = e.kind == K_ENC_ON_BOND_KEY ? g_db.pick().ediv : 0;
+            const std::uint64_t rand = e.kind == K_ENC_ON_BOND_KEY ? g_db.pick().rand : 0;
             const auto k = cd->find_key( ediv, rand );
             if ( !k.first ) return false;                      // the link layer rejects LL_ENC_REQ: pin or key missing
             // link_layer.hpp: LL_START_ENC_RSP
@@ -628,8 +667,8 @@ struct World
             return true;
         case K_CFG_DB_SAME_PEER: case K_CFG_DB_OTHER_PEER: case K_CFG_DB_LESC_SAME_PEER:
             if ( !ref.fresh ) return false;
-            if ( e.kind == K_CFG_DB_LESC_SAME_PEER ) g_db.put( OLDKEY(), 0, 0, REMOTE() );
-            else g_db.put( OLDKEY(), OLD_EDIV, OLD_RAND, e.kind == K_CFG_DB_SAME_PEER ? REMOTE() : OTHER() );
+            if ( e.kind == K_CFG_DB_LESC_SAME_PEER ) g_db.earlier.put( OLDKEY(), 0, 0, REMOTE() );
+            else g_db.earlier.put( OLDKEY(), OLD_EDIV, OLD_RAND, e.kind == K_CFG_DB_SAME_PEER ? REMOTE() : OTHER() );
             return true;
         }
         return false;
@@ -740,9 +779,9 @@ struct World
             break;
         case 3: {
             if ( !( on == 17 && out[ 0 ] == 3 ) ) { fail( c, 32, "order:wrong-response:pairing-confirm", "expected Pairing Confirm" + where ); return; }
-            ref.conf_tk = e.var <= CF_TK_OOB ? e.var : 0xff;
+            ref.conf_tk = e.var <= CF_TK_LAST ? e.var : 0xff;
             ref.tk_sm = 0xff;
-            for ( int t = 0; t != 4; ++t )
+            for ( int t = 0; t != TK_CANDIDATES; ++t )
             {
                 const u128 sc = toolbox::c1( tk_of( t ), SRAND(), ref_p1(), ref_p2() );
                 if ( std::equal( sc.begin(), sc.end(), out + 1 ) ) ref.tk_sm = std::uint8_t( t );
@@ -758,7 +797,10 @@ struct World
                 const u128 sr = SRAND();
                 if ( !( on == 17 && out[ 0 ] == 4 && std::equal( sr.begin(), sr.end(), out + 1 ) ) ) { fail( c, 32, "order:wrong-response:pairing-random", "expected Pairing Random with Srand" + where ); return; }
                 const u128 stk = toolbox::s1( tk_of( ref.conf_tk ), SRAND(), MRAND_A() );
-                ref_completed( stk, ref.conf_tk == 0 ? ST_UNAUTH : ST_AUTH, ref.conf_tk == 0 ? HOW_LEG_TK0 : ref.conf_tk == 3 ? HOW_LEG_OOB : HOW_LEG_PASSKEY );
+                // a pairing that ran with a passkey that is not the one the user saw / typed did not authenticate anybody
+                const bool wrong_passkey = ref.conf_tk >= TK_FIRST_WRONG_PASSKEY;
+                ref_completed( stk, ( ref.conf_tk == 0 || wrong_passkey ) ? ST_UNAUTH : ST_AUTH,
+                               ref.conf_tk == 0 ? HOW_LEG_TK0 : wrong_passkey ? HOW_LEG_WRONG_PASSKEY : ref.conf_tk == 3 ? HOW_LEG_OOB : HOW_LEG_PASSKEY );
                 c.cls( mc::fmt( "completed:legacy:%s", tk_name[ ref.conf_tk ] ) );
             }
             else
@@ -860,8 +902,8 @@ struct World
     void status_mismatch( mc::Ctx& c, int got, const char* what )
     {
         const int exp = ref.done ? ref.status : ST_NO_KEY;
-        static const char* const how_name[] = { "none", "legacy-just-works", "legacy-passkey-entry", "legacy-oob", "lesc-exchange-without-user-confirmation", "lesc-numeric-comparison-confirmed" };
-        static const char* const how_sig[]  = { "none", "legacy-just-works", "legacy-passkey", "legacy-oob", "lesc", "lesc-numeric-comparison" };
+        static const char* const how_name[] = { "none", "legacy-just-works", "legacy-passkey-entry", "legacy-oob", "legacy-passkey-entry-with-a-passkey-that-is-not-the-users", "lesc-exchange-without-user-confirmation", "lesc-numeric-comparison-confirmed" };
+        static const char* const how_sig[]  = { "none", "legacy-just-works", "legacy-passkey", "legacy-oob", "legacy-wrong-passkey", "lesc", "lesc-numeric-comparison" };
         std::string in_class = how_sig[ ref.how ];
         if ( ref.how == HOW_LESC_NO_USER ) in_class += ( ref.preq[ 2 ] || g_io.oob_present ) ? "-oob-indicated" : ref.preq[ 1 ] == 3 ? "-no-io" : "-passkey-io";
         const std::string detail = mc::fmt( "%s = %s, the exchange that was run is %s (request %s, response %s) => expected %s", what, st_name[ got ], how_name[ ref.how ],
@@ -888,7 +930,9 @@ struct World
 
         // C33: key offering, probed for a set of EDIV / Rand values
         static const struct { std::uint16_t ediv; std::uint64_t rand; } probes[] = {
-            { 0, 0 }, { 0, 1 }, { 1, 0 }, { 0xffff, ~0ull }, { NEW_EDIV, NEW_RAND }, { NEW_EDIV, 0 }, { 0, NEW_RAND }, { OLD_EDIV, OLD_RAND }, { OLD_EDIV, NEW_RAND } };
+            { 0, 0 }, { 0, 1 }, { 1, 0 }, { 0, 1ull << 32 }, { 0, 1ull << 63 }, { 0, 0x100 }, { 0, 0x10000 }, { 0x8000, 0 }, { 0x0100, 0 }, { 0xffff, ~0ull },
+            { NEW_EDIV, NEW_RAND }, { NEW_EDIV, 0 }, { 0, NEW_RAND }, { NEW_EDIV ^ 1, NEW_RAND }, { NEW_EDIV ^ 0x8000, NEW_RAND }, { NEW_EDIV, NEW_RAND ^ 1 }, { NEW_EDIV, NEW_RAND ^ ( 1ull << 32 ) }, { NEW_EDIV, NEW_RAND ^ ( 1ull << 63 ) },
+            { OLD_EDIV, OLD_RAND }, { OLD_EDIV, NEW_RAND }, { OLD_EDIV ^ 1, OLD_RAND }, { OLD_EDIV, OLD_RAND ^ 1 }, { OLD_EDIV, OLD_RAND ^ ( 1ull << 32 ) }, { OLD_EDIV, OLD_RAND ^ ( 1ull << 63 ) } };
         // input class of an illegitimate offer: the implementation completed a pairing in a step the protocol oracle rejects /
         // no pairing is going on / a pairing is going on but not completed
         const std::string when = failed( 32 ) ? ( ref.phase == IDLE ? "after-pairing-failed" : "unverified-completion" ) : ref.phase == IDLE ? "idle" : ref.phase == DONE ? "completed" : "pairing-in-progress";
@@ -906,6 +950,8 @@ struct World
                 const bool is_pair = pair_ok && std::equal( got.second.begin(), got.second.end(), ref.key );
                 const bool is_db   = db.first && got.second == db.second;
                 if ( !pair_ok && !db.first ) { fail( c, 33, "keys:offered-without-pairing-or-bond:" + id + ":" + when, what ); break; }
+                // "the offered key is the one that pairing produced": an older bond must not shadow the key of the completed pairing
+                if ( pair_ok && !is_pair && is_db ) { fail( c, 33, "keys:bond-shadows-key-of-completed-pairing:" + id, what + mc::fmt( "; pairing produced %s", mc::hex( ref.key, 16 ).c_str() ) ); break; }
                 if ( !is_pair && !is_db )    { fail( c, 33, "keys:wrong-key-offered:" + id, what + mc::fmt( "; pairing produced %s", mc::hex( ref.key, 16 ).c_str() ) ); break; }
                 c.cls( std::string( "keys:offered:" ) + ( is_pair ? "pairing-key" : "bond-db-key" ) + ":" + id );
             }
@@ -921,12 +967,12 @@ struct World
         {
             const bool lesc = ref.how >= HOW_LESC_NO_USER;
             const u128 nk = NEWLTK();
-            const std::string what = mc::fmt( "store_bond( %s, ediv 0x%04x, rand 0x%llx )", mc::hex( g_db.key, 16 ).c_str(), g_db.ediv, (unsigned long long)g_db.rand );
+            const std::string what = mc::fmt( "store_bond( %s, ediv 0x%04x, rand 0x%llx )", mc::hex( g_db.last.key, 16 ).c_str(), g_db.last.ediv, (unsigned long long)g_db.last.rand );
             if ( !completed_this_step )
                 fail( c, 33, "keys:bond-stored-without-pairing:" + when, what + " in a step in which the reference does not see a pairing complete successfully" );
-            else if ( !g_db.same_mac( REMOTE() )
-                   || ( lesc  && !( g_db.ediv == 0 && g_db.rand == 0 && std::equal( ref.key, ref.key + 16, g_db.key ) ) )
-                   || ( !lesc && !( g_db.ediv == NEW_EDIV && g_db.rand == NEW_RAND && std::equal( nk.begin(), nk.end(), g_db.key ) ) ) )
+            else if ( !g_db.last.same_mac( REMOTE() )
+                   || ( lesc  && !( g_db.last.ediv == 0 && g_db.last.rand == 0 && std::equal( ref.key, ref.key + 16, g_db.last.key ) ) )
+                   || ( !lesc && !( g_db.last.ediv == NEW_EDIV && g_db.last.rand == NEW_RAND && std::equal( nk.begin(), nk.end(), g_db.last.key ) ) ) )
                 fail( c, 33, "keys:wrong-bond-stored", what + "; expected the LESC LTK with ediv=rand=0 resp. the bond returned by create_new_bond, for the connected peer" );
         }
         if ( g_db.stored ) c.cls( !ref.done ? "bond:stored-in-a-step-the-reference-does-not-complete" : ref.how >= HOW_LESC_NO_USER ? "bond:lesc-key-stored" : "bond:legacy-bond-created-and-stored" );
